@@ -438,8 +438,8 @@ theorem getLast_idx (l : List Tx) (x : Tx) : (l ++ [x])[(l ++ [x]).length - 1]? 
   simp
 
 /-- H8: the fee transaction in the block is the expected one -/
-theorem fee_ok : feeCheck ctx (mkBlock fl ctx pool gt ts) (frameCV (mkBlock fl ctx pool gt ts)) = true := by
-  unfold feeCheck frameCV
+theorem feeCompare_ok : feeCompare ctx (mkBlock fl ctx pool gt ts) (frameCV (mkBlock fl ctx pool gt ts)) = true := by
+  unfold feeCompare frameCV
   cases hf : (mkBlock fl ctx pool gt ts).cv.feeTx with
   | none =>
     simp only [hf]
@@ -457,6 +457,59 @@ theorem fee_ok : feeCheck ctx (mkBlock fl ctx pool gt ts) (frameCV (mkBlock fl c
       intro h; rw [h] at hg; simp at hg
     simp only [hf, htx, getLast_idx]
     simp [hg', feeTxOf]
+
+theorem payouts_fee_of_gt (c : ScanCore) (h : c.gtIndex.isSome = true) : (payouts ctx c).feeTx.isSome = true := by
+  unfold payouts
+  cases hg : c.gtIndex with
+  | none => rw [hg] at h; cases h
+  | some _ =>
+    simp only
+    cases ctx.prev <;> rfl
+
+theorem scanFrom_ftNum (i : Nat) (s : Scan) (l : List Tx) (h : ∀ t ∈ l, t.typ ≠ .fee) :
+    (scanFrom i s l).ftNum = s.ftNum := by
+  induction l generalizing i s with
+  | nil => rfl
+  | cons t ts ih =>
+    simp only [scanFrom]
+    rw [ih (i + 1) (scanStep s i t) (fun t ht => h t (by simp [ht]))]
+    have := h t (by simp)
+    simp [scanStep, this]
+
+/-- H8b (repair F7): with no fee-typed transaction handed to `Block::create`, the finished block carries exactly
+    one fee transaction when it has a ticket and none otherwise -/
+theorem feeCount_ok (hs : Shape pool gt) (hfee : fl.feeTxCount = true → ∀ t ∈ pool, t.typ ≠ .fee) :
+    feeCount fl (frameCV (mkBlock fl ctx pool gt ts)) = true := by
+  unfold feeCount
+  cases hx : fl.feeTxCount with
+  | false => rfl
+  | true =>
+    have hA : ∀ t ∈ gt.toList ++ pool, t.typ ≠ .fee := by
+      intro t ht
+      simp only [List.mem_append, Option.mem_toList] at ht
+      rcases ht with ht | ht
+      · rw [hs.gt t ht]; decide
+      · exact hfee hx t ht
+    have h0 : (mkBlock fl ctx pool gt ts).cv.ftNum = 0 := by
+      show (scan (gt.toList ++ pool)).ftNum = 0
+      unfold scan; rw [scanFrom_ftNum _ _ _ hA]
+    have hfe : (mkBlock fl ctx pool gt ts).cv.feeTx = (payouts ctx (scan (gt.toList ++ pool)).c).feeTx := rfl
+    have hgi : (mkBlock fl ctx pool gt ts).cv.gtIndex = (scan (gt.toList ++ pool)).c.gtIndex := rfl
+    unfold frameCV
+    cases hf : (mkBlock fl ctx pool gt ts).cv.feeTx with
+    | none =>
+      have hg : (mkBlock fl ctx pool gt ts).cv.gtIndex = none := by
+        cases hgx : (mkBlock fl ctx pool gt ts).cv.gtIndex with
+        | none => rfl
+        | some k =>
+          have := payouts_fee_of_gt ctx (scan (gt.toList ++ pool)).c (by rw [← hgi, hgx]; rfl)
+          rw [← hfe, hf] at this; cases this
+      simp [h0, hg]
+    | some o =>
+      have hg : (mkBlock fl ctx pool gt ts).cv.gtIndex.isSome = true := by
+        apply payouts_fee_gt ctx (scan (gt.toList ++ pool)).c
+        rw [← hfe, hf]; rfl
+      simp [h0, hg]
 
 theorem work_ge : (pool.map (·.work)).sum ≤ (mkBlock fl ctx pool gt ts).totalWork := by
   unfold Block.totalWork
